@@ -75,10 +75,10 @@ def slim(n):
     if 'inner' in n: o['inner'] = [slim(c) for c in n['inner']]
     return o
 
-def enums(repo):
+def enums(repo, only=None):
     """name -> value of every enumerator declared in SRC/*.h (simple `typedef enum {..} t;` lists)"""
     out = {}
-    for h in sorted(glob.glob(os.path.join(repo, 'SRC', '*.h'))):
+    for h in sorted(glob.glob(os.path.join(repo, 'SRC', only or '*.h'))):
         txt = re.sub(r'/\*.*?\*/', ' ', open(h, errors='replace').read(), flags=re.S)
         txt = re.sub(r'//[^\n]*', ' ', txt)
         for m in re.finditer(r'\benum\b[^{;]*\{([^}]*)\}', txt):
@@ -108,6 +108,7 @@ def kind(v):
     if t in ('opq', 'loc'): return v[2]
     if t == 'bin': return 'B' if (v[1] in CMP or v[1] in ('&&', '||')) else kind(v[2])
     if t == 'ite': return 'B' if 'B' in (kind(v[2]), kind(v[3])) else kind(v[2])
+    if t == 'cond': return 'I'
     if t == 'let': return kind(v[2])
     raise Fail('kind of %r' % (v,))
 def atomic(v): return v[0] in ('int', 'enum', 'fld', 'var', 'true', 'false', 'opq', 'loc', 'ptr', 'str')
@@ -167,6 +168,8 @@ class Tr:
         if atomic(v) or kind(v) not in ('I', 'B') or v[0] == 'strncmp' or getattr(self, 'nodefine', False): return v
         k = self.defver.get(var, 0); self.defver[var] = k + 1
         name = '%s_%s%s' % (self.fn, var, '' if k == 0 else '_%d' % k)
+        v = fold(v)
+        if atomic(v): return v
         self.defs.append((name, kind(v), v))
         return ('loc', name, kind(v))
 
@@ -260,8 +263,8 @@ class Tr:
         if k == 'ConditionalOperator':
             c = self.tobool(self.ev(inner[0])); x = self.ev(inner[1]); y = self.ev(inner[2])
             if 'F' in (kind(x), kind(y)): return self.opq('fexpr_line%s' % n.get('line'), 'F')
-            if 'B' in (kind(x), kind(y)): x, y = self.tobool(x), self.tobool(y)
-            return ('ite', c, x, y)
+            if 'B' in (kind(x), kind(y)): return ('ite', c, self.tobool(x), self.tobool(y))
+            return ('cond', c, x, y)
         if k == 'CallExpr':
             callee = self.ev(inner[0]); args = [self.ev(a) for a in inner[1:]]
             name = callee[1] if callee[0] == 'str' else '?'
@@ -378,18 +381,38 @@ class Tr:
             out[key] = v if key == self.info_key or key.startswith('*') else self.define(key, v)
         return out
 
+    def touches_info(self, n):
+        """does the statement (outside its own condition) assign or read the info variable?"""
+        def ref(m):
+            return m.get('kind') == 'DeclRefExpr' and m.get('ref', ['', ''])[1] == 'info'
+        if n.get('kind') == 'IfStmt':
+            return any(self.mentions(c, ref) for c in n['inner'][1:])
+        return False
+
     def run(self, stmts):
-        """execute a statement list in self.env; info values that are not atomic are let-bound before
-        the next statement reads them"""
-        binds = []
-        for idx, s in enumerate(stmts):
+        """execute a statement list in self.env.  An `if` whose branches involve the info variable is
+        PATH-SPLIT: both branches are continued separately with the rest of the list, so that on every
+        path the info variable holds a literal constant and the result is a decision tree with
+        constant leaves (tests that are sequenced in the C code, e.g. `if (colequ && *info == 0)`,
+        are thereby resolved per path).  Other statements update self.env with if-merge semantics."""
+        stmts = list(stmts)
+        while stmts:
+            s = stmts.pop(0)
+            k = s.get('kind')
+            if k == 'CompoundStmt':
+                stmts = list(s.get('inner', [])) + stmts; continue
+            if k == 'IfStmt' and self.info_key and self.env.get(self.info_key) is not None and self.touches_info(s):
+                parts = s['inner']
+                c = self.tobool(self.ev(parts[0]))
+                base = self.env
+                self.env = dict(base); self.run([parts[1]] + stmts); e1 = self.env
+                self.env = dict(base); self.run(([parts[2]] if len(parts) > 2 else []) + stmts); e2 = self.env
+                c = fold(c)
+                if c == ('true',): self.env = e1
+                elif c == ('false',): self.env = e2
+                else: self.env = self.merge(c, e1, e2)
+                return
             self.stmt(s)
-            v = self.env.get(self.info_key) if self.info_key else None
-            if v is not None and not atomic(v) and idx + 1 < len(stmts):
-                self.nlet += 1; nm = 'info%d' % self.nlet
-                binds.append((nm, v)); self.env[self.info_key] = ('var', nm)
-        if binds:
-            self.env[self.info_key] = ('let', binds, self.env[self.info_key])
 
     def stmt(self, n):
         k = n.get('kind'); inner = n.get('inner', [])
@@ -477,7 +500,7 @@ class Tr:
         if pre is not None: raise Fail('%s: info assigned before `info = 0`' % self.fn)
         self.env[self.info_key] = ('int', 0)
         self.run(body[s0 + 1:s1])
-        self.check = self.env[self.info_key]
+        self.check = fold(self.env[self.info_key])
         # the screening exit itself
         ex = body[s1]
         cond = self.ev_cond_info(ex['inner'][0])
@@ -558,6 +581,52 @@ def _ev(self, n):
     return _orig_ev(self, n)
 Tr.ev = _ev
 
+def fold(v):
+    """constant folding of comparisons between literals and of connectives with a literal operand"""
+    t = v[0]
+    if t == 'bin':
+        op, x, y = v[1], fold(v[2]), fold(v[3])
+        if op in CMP and x[0] == 'ite' and kind(x) == 'I' and atomic(y):
+            return fold(('ite', x[1], ('bin', op, x[2], y), ('bin', op, x[3], y)))
+        if op in CMP and y[0] == 'ite' and kind(y) == 'I' and atomic(x):
+            return fold(('ite', y[1], ('bin', op, x, y[2]), ('bin', op, x, y[3])))
+        if op in CMP and x[0] == 'int' and y[0] == 'int':
+            r = {'==': x[1] == y[1], '!=': x[1] != y[1], '<': x[1] < y[1], '<=': x[1] <= y[1], '>': x[1] > y[1], '>=': x[1] >= y[1]}[op]
+            return ('true',) if r else ('false',)
+        if op == '&&':
+            if ('false',) in (x, y): return ('false',)
+            if x == ('true',): return y
+            if y == ('true',): return x
+        if op == '||':
+            if ('true',) in (x, y): return ('true',)
+            if x == ('false',): return y
+            if y == ('false',): return x
+        return ('bin', op, x, y)
+    if t == 'not':
+        x = fold(v[1])
+        if x == ('true',): return ('false',)
+        if x == ('false',): return ('true',)
+        return ('not', x)
+    if t == 'ite':
+        c, x, y = fold(v[1]), fold(v[2]), fold(v[3])
+        if c == ('true',): return x
+        if c == ('false',): return y
+        if x == y: return x
+        if kind(x) == 'B' or kind(y) == 'B':
+            x, y = (x if kind(x) == 'B' else (('true',) if x[1] else ('false',))), (y if kind(y) == 'B' else (('true',) if y[1] else ('false',)))
+            if x == ('false',): return fold(('bin', '&&', ('not', c), y))
+            if y == ('false',): return fold(('bin', '&&', c, x))
+            if x == ('true',): return fold(('bin', '||', c, y))
+            if y == ('true',): return fold(('bin', '||', ('not', c), x))
+            return ('ite', c, x, y)
+        # `if r then (if q then v else T) else T`  ==  `if r ∧ q then v else T`  (a test nested in a guard
+        # whose continuation is the same on both sides, as produced by path-splitting `if (r) { if (q) info = v; }`)
+        if x[0] == 'ite' and x[3] == y: return ('ite', ('bin', '&&', c, x[1]), x[2], y)
+        return ('ite', c, x, y)
+    if t == 'cond': return ('cond', fold(v[1]), fold(v[2]), fold(v[3]))
+    if t == 'neg': return ('neg', fold(v[1]))
+    return v
+
 # ------------------------------------------------------------------------------------ Lean emission
 def lint(k): return str(k) if k >= 0 else '(%d)' % k
 def emit(v, ind=2):
@@ -578,6 +647,15 @@ def emit(v, ind=2):
         if op == '&&': return '(%s) ∧ (%s)' % (x, y)
         if op == '||': return '(%s) ∨ (%s)' % (x, y)
         return '%s %s %s' % (par(v[2], x), op, par(v[3], y))
+    if t == 'ite' and kind(v) == 'B':
+        c, x, y = v[1], v[2], v[3]
+        if x == ('false',): return '(¬ (%s)) ∧ (%s)' % (emit(c, ind), emit(y, ind))
+        if y == ('false',): return '(%s) ∧ (%s)' % (emit(c, ind), emit(x, ind))
+        if x == ('true',): return '(%s) ∨ (%s)' % (emit(c, ind), emit(y, ind))
+        if y == ('true',): return '(¬ (%s)) ∨ (%s)' % (emit(c, ind), emit(x, ind))
+        return '((%s) ∧ (%s)) ∨ ((¬ (%s)) ∧ (%s))' % (emit(c, ind), emit(x, ind), emit(c, ind), emit(y, ind))
+    if t == 'cond':
+        return 'if %s then %s else %s' % (emit(v[1], ind), emit(v[2], ind), emit(v[3], ind))
     if t == 'ite':
         pad = ' ' * ind
         th = emit(v[2], ind + 2)
@@ -602,8 +680,10 @@ def lean_text(results, enumv, failures, repo):
     for r in results:
         for e in r.get('enums', []):
             if e not in used: used.append(e)
-    for e in ('SLU_S', 'SLU_D', 'SLU_C', 'SLU_Z'):
-        if e in enumv and e not in used: used.append(e)
+    # every enumerator of the matrix tags and option enumerations, so that the hand-written spec can name them
+    for h in ('supermatrix.h', 'superlu_enum_consts.h'):
+        for e in enums(repo, only=h):
+            if e not in used: used.append(e)
     o = []
     o.append('/- GENERATED by tools/argchain.py from the C sources in SRC/ — do not edit.\n'
              '   Literal translation of the argument-screening chains of the driver and computational\n'
@@ -648,6 +728,12 @@ def lean_text(results, enumv, failures, repo):
     o.append('def prewritesTable : List (String × List String) := [\n' + ',\n'.join('  ("%s", prewrites_%s)' % (f, f) for f in names) + ']')
     o.append('def srnameTable : List (String × String) := [\n' + ',\n'.join('  ("%s", srname_%s)' % (f, f) for f in names) + ']')
     o.append('def translationFailures : List String := [%s]' % ', '.join(json.dumps(f) for f in failures))
+    # tactic that unfolds everything generated here (chains, locals, enumerators) down to integer facts
+    gen_names = list(used)
+    for r in results:
+        gen_names += ['check_' + r['fn'], 'errparam_' + r['fn']] + [d[0] for d in r.get('defs', [])]
+    o.append('\n/-- unfold the generated chains, their locals and the enumerators (used by SluProofs/Props/C18.lean) -/')
+    o.append('macro "argchain_gen_unfold" : tactic => `(tactic| simp only [\n    ' + ',\n    '.join(', '.join(gen_names[i:i + 8]) for i in range(0, len(gen_names), 8)) + '] at *)')
     o.append('\nend Slu.ArgChains\n')
     return '\n'.join(o)
 
